@@ -26,6 +26,54 @@ REFUSALS = ('detach() / from_children() of a Borrowed node (node already lives e
             'a store" inside TokenStore (arguments are detached or fresh by PAIR-DETACH / SEP-PROV)')
 
 
+def rule_detach_gate(ctx: RuleContext, p: Program, rid: str) -> None:
+    import ast
+    from ..model import norm, stmts_no_doc, walk_no_nested
+    ctx.rule(rid, 'RawModel.detach() is the gate that refuses a node living in a larger document: it raises unless the node\'s first '
+                  'and last token *are* (identity, not equality: tokens compare equal by text) the first and last token of its store; '
+                  'only then does it remove every token of that store and return them; RawTokenModel.detach defers to it whenever '
+                  'the token has a store')
+    rm = p.cls('RawModel', 'models.base')
+    f = p.method(rm, 'detach', inherited=False)
+    raises = [i for i in walk_no_nested(f.node) if isinstance(i, ast.If) and any(isinstance(x, ast.Raise) for x in i.body)]
+    problems = []
+    if len(raises) != 1:
+        problems.append('expected exactly one refusal')
+    else:
+        t = raises[0].test
+        disj = t.values if isinstance(t, ast.BoolOp) and isinstance(t.op, ast.Or) else None
+        if disj is None or len(disj) != 2:
+            problems.append(f'refusal test `{norm(t)[:120]}` is not `<first differs> or <last differs>`')
+        else:
+            got = set()
+            for d in disj:
+                if isinstance(d, ast.Compare) and len(d.ops) == 1 and isinstance(d.ops[0], ast.IsNot):
+                    got.add(frozenset((norm(d.left), norm(d.comparators[0]))))
+                else:
+                    problems.append(f'`{norm(d)}` is not an identity (`is not`) comparison: equal-looking tokens (all placeholders are \'\') would pass the gate')
+            want = {frozenset(('self.first_token', 'self.token_store.get_first()')), frozenset(('self.last_token', 'self.token_store.get_last()'))}
+            if not problems and got != want:
+                problems.append(f'gate compares {sorted(map(sorted, got))}, expected first_token/get_first() and last_token/get_last()')
+        # nothing is removed before the refusal
+        body = stmts_no_doc(f.node.body)
+        idx = body.index(raises[0]) if raises[0] in body else -1
+        before = [norm(s) for s in body[:idx] for x in ast.walk(s) if isinstance(x, ast.Call) and isinstance(x.func, ast.Attribute)
+                  and x.func.attr in ('remove', 'splice', 'insert_after', 'insert_before', 'replace')]
+        if before:
+            problems.append(f'the store is modified before the refusal: {before[:2]}')
+    rem = [c for c in walk_no_nested(f.node) if isinstance(c, ast.Call) and isinstance(c.func, ast.Attribute) and c.func.attr == 'remove']
+    tl = [a for a in walk_no_nested(f.node) if isinstance(a, ast.Assign) and norm(a.value) == 'list(self.token_store)']
+    if len(rem) != 1 or len(tl) != 1 or [norm(a) for a in rem[0].args] != [f'{norm(tl[0].targets[0])}[0]', f'{norm(tl[0].targets[0])}[-1]']:
+        problems.append('does not remove and return the whole content of the store')
+    ctx.check(not problems, rid, 'models.base:RawModel.detach', '; '.join(problems) or 'ok', '; '.join(problems), f.where,
+              note='raise unless first/last token are (identity) the store\'s first/last; then remove all')
+    tm = p.cls('RawTokenModel', 'models.base')
+    g = p.method(tm, 'detach', inherited=False)
+    body = [norm(s) for s in stmts_no_doc(g.node.body)]
+    ok = len(body) == 2 and body[0].startswith('if not self.store_handle:') and 'return [self]' in body[0] and body[1] == 'return super().detach()'
+    ctx.check(ok, rid, 'models.base:RawTokenModel.detach', f'{body}', f'RawTokenModel.detach is {body}; expected [self] for a free token, else the RawModel gate', g.where)
+
+
 def run(ctx: RuleContext, p: Program) -> None:
     ctx.rule('ORD-REFUSE', 'on no path of a public mutating entry point does a refusal point follow a mutation of Borrowed '
                            'document state; refusal points: ' + REFUSALS)
@@ -58,6 +106,7 @@ def run(ctx: RuleContext, p: Program) -> None:
                  f'leaves the document changed', '', path)
     from . import tokenstore as T
     ctx.try_rule(T.rule_ts_gate, T.TS(p), 'TS-GATE')
+    ctx.try_rule(rule_detach_gate, p, 'DETACH-GATE')
     st = it.stats
     ctx.stats['effect_interpreter'] = {
         'entries': n, 'mutating_entries': mutating, 'skipped_same_signature_in_quick': ents.get('_skipped_same_signature', 0),
